@@ -110,7 +110,9 @@ func mkUpdateBody(supi string, chargingID int32, rg int32, req, used int32, lsn 
 	return b
 }
 
-func mkCreateBody(supi string, chargingID int32) []byte { return mkCreateBodyNamed(supi, chargingID, "smf") }
+func mkCreateBody(supi string, chargingID int32) []byte {
+	return mkCreateBodyNamed(supi, chargingID, "smf")
+}
 
 func mkCreateBodyNamed(supi string, chargingID int32, name string) []byte {
 	now := time.Now()
@@ -232,7 +234,11 @@ func oneBurst(c C09Case, rep int) (sig, msg string, nt bool) {
 			}
 			switch k {
 			case "update":
-				reqs = append(reqs, &burstReq{method: "POST", path: prefix + "/chargingdata/" + s.ref + "/update", body: mkUpdateBody(s.supi, s.id, 1, c.Req, c.Used, lsn, ""), kind: "update", supi: s.supi, sessRef: s.ref, lsn: lsn, usedOnline: int64(c.Used)})
+				tr := ""
+				if i%2 == 1 {
+					tr = []string{"MGMT", "VOLUME_LIMIT", "MAX_CHANGES"}[i%3] // partial record closures in the middle of the burst, on several subscribers
+				}
+				reqs = append(reqs, &burstReq{method: "POST", path: prefix + "/chargingdata/" + s.ref + "/update", body: mkUpdateBody(s.supi, s.id, 1, c.Req, c.Used, lsn, tr), kind: "update", supi: s.supi, sessRef: s.ref, lsn: lsn, usedOnline: int64(c.Used)})
 			case "release":
 				reqs = append(reqs, &burstReq{method: "POST", path: prefix + "/chargingdata/" + s.ref + "/release", body: mkUpdateBody(s.supi, s.id, 1, 0, c.Used, lsn, "FINAL"), kind: "release", supi: s.supi, sessRef: s.ref, lsn: lsn, usedOnline: int64(c.Used)})
 			case "recharge":
